@@ -171,6 +171,11 @@ def gen_cases(tier, seed):
         cases.append(dict(kind="special", what="imtlg-tall-integer", lo=lo, hi=min(4 ** 8, lo + 1024)))
     for k in range(3):
         cases.append(dict(kind="special", what="native-seed", k=k))
+    cases.append(dict(kind="special", what="tm-huge-cancel"))
+    cases.append(dict(kind="special", what="reuse-after-null-row"))
+    for m_ in (26, 30):
+        for off in (0.0, 1e4):
+            cases.append(dict(kind="special", what="krum-tall-float32", m=m_, offset=off))
     return cases
 
 
@@ -431,6 +436,70 @@ def run_special(case, ctx):
                             lambda: f"IMTLG J={J.tolist()} pi={list(perm)}: A(pi J)={y.tolist()} A(J)={x.tolist()}")
             ctx.nontrivial += 1
             ctx.outcomes.add("it:" + digest(np.round(x, 6).tolist()))
+    elif what == "tm-huge-cancel":
+        # a sign-flip pair of huge rows (+-1e20: they cancel in a running sum) next to moderate rows: TrimmedMean must trim them and
+        # average the moderate ones, whatever the row order (all 120 permutations)
+        base = np.array([[1.0, -2.0, 0.5], [0.25, 3.0, -1.0], [-0.75, 1.5, 2.0]])
+        for big in (1e20, 1e17, 3e15):
+            J = np.vstack([base, big * np.array([[1.0, -1.0, 1.0]]), -big * np.array([[1.0, -1.0, 1.0]])])
+            for b_ in (1, 2):
+                agg = T.TrimmedMean(b_)
+                ctx.execs += 1
+                x = agg(torch.tensor(J, dtype=torch.float64)).numpy()
+                for perm in itertools.permutations(range(5)):
+                    ctx.execs += 1
+                    y = agg(torch.tensor(J[list(perm)], dtype=torch.float64)).numpy()
+                    ctx.compare("special:tm-huge-cancel", float(np.abs(y - x).max()), 1e-9 * 4.0, "rowperm:TrimmedMean:huge-cancelling-rows",
+                                lambda: f"TrimmedMean({b_}) rows {base.tolist()} + (+-{big:g})*(1,-1,1), pi={list(perm)}: {y.tolist()} vs {x.tolist()}")
+                ctx.nontrivial += 1
+                ctx.outcomes.add(f"tm:{big}:{b_}:" + digest(np.round(x, 9).tolist()))
+    elif what == "krum-tall-float32":
+        # more than 25 rows (torch.cdist switches formula there), float32, a large common offset; 32 structured permutations (all cyclic
+        # shifts, the reversal, even/odd interleaving, ...) - a stated bound, 28! cannot be enumerated
+        m, off, n = case["m"], case["offset"], 3
+        J = np.array([[off + ((7 * i + 3 * j) % 5) + 0.03125 * i * (j + 1) for j in range(n)] for i in range(m)])
+        J32 = torch.tensor(J, dtype=torch.float32).double().numpy()
+        perms = [list(range(k, m)) + list(range(k)) for k in range(1, m)] + [list(range(m))[::-1], list(range(0, m, 2)) + list(range(1, m, 2)),
+                                                                               list(range(1, m, 2)) + list(range(0, m, 2))[::-1]]
+        for f, k in ((0, 1), (2, 1), (2, 3)):
+            from mc import refmodels as R_
+            scores = sorted(R_.krum_scores(J32, f))
+            if scores[k] - scores[k - 1] < 1e-3 * max(1.0, scores[k]):
+                ctx.dropped += 1
+                continue
+            agg = T.Krum(f, k)
+            ctx.execs += 1
+            x = agg(torch.tensor(J32, dtype=torch.float32)).double().numpy()
+            for perm in perms:
+                ctx.execs += 1
+                y = agg(torch.tensor(J32[perm], dtype=torch.float32)).double().numpy()
+                ctx.compare("special:krum-tall-float32", float(np.abs(y - x).max()), 16 * 1.2e-7 * max(1.0, float(np.abs(x).max())), "rowperm:Krum:tall-float32",
+                            lambda: f"Krum({f},{k}) float32 {m}x{n} offset {off:g} pi={perm[:6]}...: {y.tolist()} vs {x.tolist()}")
+            ctx.nontrivial += 1
+            ctx.outcomes.add(f"kt:{m}:{off}:{f}:{k}")
+    elif what == "reuse-after-null-row":
+        # ONE instance: first a matrix with an exactly null row, then a full-rank matrix under every row permutation; a new instance
+        # must give the same results (an aggregator that zeroes cached/default weights in place for null rows would not)
+        J0 = np.array([[0.0, 0.0, 0.0, 0.0], [1.0, -1.0, 0.5, 2.0], [0.5, 2.0, -1.0, 0.0]])
+        J = np.array([[1.0, 0.5, -1.0, 2.0], [-0.5, 2.0, 1.0, 0.25], [2.0, -1.0, 0.5, 1.0]])
+        s = A.sigma_max(J)
+        makers = [("ConFIG", lambda: T.ConFIG()), ("UPGrad", lambda: T.UPGrad()), ("DualProj", lambda: T.DualProj()), ("AlignedMTL", lambda: T.AlignedMTL()),
+                  ("IMTLG", lambda: T.IMTLG()), ("MGDA", lambda: T.MGDA()), ("Mean", lambda: T.Mean()), ("Sum", lambda: T.Sum()), ("CAGrad", lambda: T.CAGrad(c=0.5)),
+                  ("TrimmedMean", lambda: T.TrimmedMean(1)), ("Krum", lambda: T.Krum(0, 1))]
+        for name, mk in makers:
+            inst = mk()
+            try:
+                inst(torch.tensor(J0, dtype=torch.float64))
+            except Exception:
+                pass
+            for perm in itertools.permutations(range(3)):
+                ctx.execs += 2
+                x = inst(torch.tensor(J[list(perm)], dtype=torch.float64)).numpy()
+                y = mk()(torch.tensor(J[list(perm)], dtype=torch.float64)).numpy()
+                ctx.compare(f"special:reuse-after-null-row:{name}", float(np.abs(x - y).max()), (1e-3 if name == "CAGrad" else 1e-9) * s,
+                            f"stateful-after-null-row:{name}", lambda: f"{name}: after a call with a null row, pi={list(perm)} gives {x.tolist()}, a new instance gives {y.tolist()}")
+            ctx.nontrivial += 1
+            ctx.outcomes.add(f"rn:{name}")
     else:  # native-seed: the SAME instance, torch.manual_seed before every call (no replayed draws): rows permuted together with the leak
         mats = [np.array([[1.0, -2.0, 0.5], [-1.0, 1.0, 2.0], [0.5, 0.5, -1.0]]), np.array([[1.0, 0.0], [-1.0, 1.0], [-0.5, -2.0], [0.25, -1.0]]),
                 np.array([[2.0, -1.0], [-1.0, 0.5], [-1.0, -1.0]])]
